@@ -240,6 +240,50 @@ func memrun(args []string) error {
 		})
 		tr.Add(wl.Ev{"ev": "Stream", "dir": "scan-skip", "sizeKiB": n / 1024, "peakKiB": p, "totalKiB": t, "ok": err == nil, "why": errStr(err)})
 	}
+	// the writer over a long recording: the live heap after 300 000 small messages must be what it was after 100 000
+	// (memory for a few chunks, not for the file), with and without message indexing
+	for _, skip := range []bool{false, true} {
+		sink := &countSink{}
+		w, err := mcap.NewWriter(sink, &mcap.WriterOptions{Chunked: true, ChunkSize: 64 << 10, SkipMessageIndexing: skip, IncludeCRC: true})
+		if err != nil {
+			return err
+		}
+		_ = w.WriteHeader(&mcap.Header{})
+		for ch := uint16(0); ch < 4; ch++ {
+			_ = w.WriteChannel(&mcap.Channel{ID: ch, Topic: fmt.Sprintf("/t%d", ch)})
+		}
+		live := func() uint64 {
+			runtime.GC()
+			runtime.GC()
+			var m runtime.MemStats
+			runtime.ReadMemStats(&m)
+			return m.HeapAlloc
+		}
+		payload := make([]byte, 24)
+		var at30 uint64
+		ok := true
+		for i := 0; i < 300000; i++ {
+			if i == 100000 {
+				at30 = live()
+			}
+			if err := w.WriteMessage(&mcap.Message{ChannelID: uint16(i % 4), Sequence: uint32(i), LogTime: uint64(i), PublishTime: uint64(i), Data: payload}); err != nil {
+				ok = false
+				break
+			}
+		}
+		end := live()
+		growth := uint64(0)
+		if end > at30 {
+			growth = end - at30
+		}
+		_ = w.Close()
+		dir := "write-long"
+		if skip {
+			dir = "write-long-noindex"
+		}
+		// reported in the vocabulary of the stream judge: peak = growth of the live heap between message 100 000 and 300 000
+		tr.Add(wl.Ev{"ev": "Stream", "dir": dir, "sizeKiB": sink.n / 1024, "peakKiB": growth / 1024, "totalKiB": 0, "ok": ok, "why": ""})
+	}
 	tr.Add(wl.Ev{"ev": "End"})
 	_ = fmt.Sprint
 	return o.emit(tr)
